@@ -259,6 +259,20 @@ func (tb *TB) Bin(op Op, x, y *Term) *Term {
 			x, y = y, x
 		}
 	}
+	if op == OpLShr && y.IsConst() {
+		k := int(y.val)
+		switch {
+		case y.val >= uint64(w):
+			return tb.Const(w, 0)
+		case k == 0:
+			return x
+		case x.op == OpConcat && k >= x.b.w:
+			// the low field is shifted out entirely: what remains is the high field
+			return tb.Bin(OpLShr, tb.ZExt(x.a, w), tb.Const(w, uint64(k-x.b.w)))
+		case x.op == OpZExt && k >= x.a.w:
+			return tb.Const(w, 0)
+		}
+	}
 	switch op {
 	case OpURem:
 		if y.IsConst() && y.val != 0 && y.val&(y.val-1) == 0 {
@@ -631,6 +645,19 @@ func (tb *TB) Extract(x *Term, hi, lo int) *Term {
 	}
 	if x.op == OpIte && x.b.IsConst() && x.c.IsConst() {
 		return tb.Ite(x.a, tb.Extract(x.b, hi, lo), tb.Extract(x.c, hi, lo))
+	}
+	if x.op == OpConcat {
+		// a slice that lies inside one field of a concatenation is a slice of that field
+		if hi < x.b.w {
+			return tb.Extract(x.b, hi, lo)
+		}
+		if lo >= x.b.w {
+			return tb.Extract(x.a, hi-x.b.w, lo-x.b.w)
+		}
+	}
+	if x.op == OpLShr && x.b.IsConst() && hi+int(x.b.val) < x.w {
+		// bits of a logical right shift are bits of the operand
+		return tb.Extract(x.a, hi+int(x.b.val), lo+int(x.b.val))
 	}
 	return tb.mk(OpExtract, w, x, nil, nil, uint64(hi)<<8|uint64(lo), "")
 }
